@@ -1,8 +1,8 @@
 #!/bin/bash
-# usage: m2all.sh C04:1 C05:2 ...  -> runs all 20 checks against the given round-2 changes
-for PK in "$@"; do
-  P=${PK%%:*}; k=${PK##*:}
-  ( timeout 2400 /venv/bin/python /verif/tools/seedtest.py $P /tmp/r2/m2-$P-out/mut$k.diff /tmp/r2/m2-$P-out/demo$k.py --all-checks | /venv/bin/python -c "
-import json,sys; r=json.load(sys.stdin); print('$P-m$k', {p:(v['exit'],[x.split('instance=')[-1][:60] for x in v['fails'][:2]]) for p,v in r['checks'].items() if v['exit']})" ) &
+# usage: m2all.sh C04-m1 C05-m2 ...  -> runs all 20 checks against the given round-2 changes
+for K in "$@"; do
+  d=/verif/pending/$K; [ -d $d ] || d=/verif/seeded/$K
+  ( timeout 2400 /venv/bin/python /verif/tools/seedtest.py ${K%%-*} $d/patch.diff $d/demo.py --all-checks | /venv/bin/python -c "
+import json,sys; r=json.load(sys.stdin); print('$K', {p:(v['exit'],[x.split('instance=')[-1][:60] for x in v['fails'][:2]]) for p,v in r['checks'].items() if v['exit']})" ) &
 done
 wait
